@@ -2,6 +2,19 @@ from __future__ import annotations
 from .core import Machinery
 
 
+SOLVER_TEXT = {
+    'C01': 'clauses CoupledPos/Spd/Acc@i: at every recorded instant, for every adjacent pair, upstream = ratio x downstream with the ratio recomputed from teeth/starts',
+    'C02': 'clauses DriveMotor, DriveDown@i, LoadFunction, LoadUp@i, NetTorque@i at every recorded instant',
+    'C11': 'clauses GridInstant (k-th instant = start + k dt), GridNotBeyondT, GridCount (exactly round(T/dt) further instants), GridPrefixWithStop; fresh and continued runs, dt and T in any of the four time units',
+    'C13': 'clauses LockSignSafe (recorded motor speed never opposite to the duty cycle in force), HeldSpeedZero/HeldAccZero@i, HeldPosConstant, ClampWithoutSelfLocking; the lock bit is an unlogged spec variable chosen by SolverOps!LockSet',
+    'C14': 'clauses ArbDutyCycle (= clip of the single proposal, or 1), ArbConflictMustRaise, ArbErrorOnlyOnConflict, ArbRecordedDutyCycle, PwmRange, PwmUnchangedWithoutControl; proposals logged by harness-owned TracedRule wrappers, incl. scripted rules proposing values far outside [-1,1]',
+    'C15': 'clauses RuleValue@idx: every logged proposal of ConstantPWM / ReachAngularPosition / StartProportionalToAngularPosition / StartLimitCurrent (checked through its quadratic) against Control.tla at the logged state, also at the instant a run aborted',
+    'C16': 'clauses StopCheckedOncePerInstant, StopReadsRecordedValue, StopAtFirstHit, StopOnlyWhenTrue, StopNotCheckedAtInitialInstant; sensor reads logged by a harness-owned TracedSensor',
+    'C17': 'clauses RectOneSamplePerInstant, RectAdvertisedIsRecorded, RectKinds, LiveEqualsLastSample, Reset* after every run / reset of every schedule',
+    'C03': 'clauses AccFromNetTorque (equivalent inertia by the documented reduction), IntegratePos/IntegrateSpd between consecutive instants (dt from the recorded axis), InitialPos/Spd',
+}
+
+
 def run(pid: str, tier: str, seed: int, replay: str | None) -> int:
     if pid == 'C05':
         from . import units_drv
@@ -21,4 +34,7 @@ def run(pid: str, tier: str, seed: int, replay: str | None) -> int:
     if pid in ('C10', 'C20'):
         from . import relations_drv
         return getattr(relations_drv, 'run_' + pid)(tier, seed)
+    if pid in SOLVER_TEXT:
+        from . import solver_drv
+        return solver_drv.run_prop(pid, tier, seed, SOLVER_TEXT[pid], None)
     raise Machinery(f'no check registered for {pid}')
